@@ -3,7 +3,7 @@
    Model (Lazy.v): the domain of the variable is a pair (memoised elements, unconsumed remainder of the one-shot iterator);
    a single-variable query tests every element it is handed and yields the qualifying ones; [results q s] lists the results
    together with the domain state at the moment each is delivered. *)
-From EQL Require Import Base Values Syntax Spec Lazy Lazy_Facts.
+From EQL Require Import Base Values Syntax Spec Lazy Lazy_Facts Lazy_Demand.
 
 (* evaluate() without asking for a result does no work: nothing is pulled, nothing changes *)
 Theorem C07_nothing_before_first_request : forall q s, take q 0 s = ([], s).
@@ -35,6 +35,17 @@ Theorem C07_pulls_monotone : forall pool ops1 ops2 d,
   exists n, rem (lafter pool (fresh d) (ops1 ++ ops2)) = skipn n (rem (lafter pool (fresh d) ops1)).
 Proof. exact pulls_monotone. Qed.
 Print Assumptions C07_pulls_monotone.
+
+(* THE WHOLE HISTORY, EXACTLY: after every step of every history of full / partial (any k) / aborted evaluations of any queries
+   over the variable, the number of elements read from the one-shot iterator d (repetitions in d allowed) is the length of the
+   longest prefix any step so far NEEDED - where what a step needs is stated on d alone ([Lazy.required]: for `take k` the
+   shortest prefix of d holding k distinct qualifying objects, all of d when there are fewer or for a full evaluation; for an
+   evaluation aborted at the j-th call of a user predicate the shortest prefix holding j distinct objects passing the guard).
+   Nothing is read before it is needed, nothing is read again. *)
+Theorem C07_pulls_as_specified : forall pool d ops,
+  map (fun r => length d - length (rem (snd r))) (lrun pool (fresh d) ops) = spec_pulls pool d 0 ops.
+Proof. exact history_pulls. Qed.
+Print Assumptions C07_pulls_as_specified.
 
 (* non-vacuity: objects 5 3 8 1 9 4, the even ones qualify... (here: 8 and 4); the 1st result arrives after 3 pulls, the 2nd after 6;
    a history: take 1, then an evaluation aborted at the 2nd predicate call, then a full one *)
